@@ -629,11 +629,12 @@ func (b *Builder) Block(tsOffset int) types.Block {
 		binary.LittleEndian.PutUint64(tag, b.salt)
 		blk.V2 = &types.V2BlockData{Height: h, Transactions: append([]types.V2Transaction{{ArbitraryData: tag}}, b.v2...)}
 		blk.V2.Commitment = cs.Commitment(b.W.Addr, blk.Transactions, blk.V2Transactions())
-	} else if len(b.v1) == 0 {
-		// make sibling v1 blocks distinct even when empty
+	} else {
+		// make sibling v1 blocks distinct (two siblings built from the same operations at the same
+		// timestamp offset would otherwise be the same block, and the same ID, under two node numbers)
 		tag := make([]byte, 8)
 		binary.LittleEndian.PutUint64(tag, b.salt)
-		blk.Transactions = []types.Transaction{{ArbitraryData: [][]byte{tag}}}
+		blk.Transactions = append(append([]types.Transaction(nil), b.v1...), types.Transaction{ArbitraryData: [][]byte{tag}})
 	}
 	Mine(cs, &blk)
 	return blk
